@@ -90,6 +90,8 @@ type Collector struct {
 	doneFile   *os.File // completed units, one per line
 	seed       uint64
 	tier       string
+	Known      *KnownFindings `json:"-"`
+	knownSeen  map[string]bool
 	lastMark   []byte
 	markNanos  atomic.Int64 // read by the watchdog goroutine
 	markMu     sync.Mutex   // guards lastMark/Unit snapshots for the watchdog
@@ -156,6 +158,22 @@ func (c *Collector) Violate(v *Violation) {
 		return
 	}
 	v.Unit = c.Unit
+	if c.Known != nil {
+		if kf := c.Known.Match(v); kf != nil {
+			// a listed finding: counted, one example kept, never crowds out other violations
+			c.Stats["known_finding_hits"]++
+			if c.knownSeen == nil {
+				c.knownSeen = map[string]bool{}
+			}
+			if c.knownSeen[kf.ID] {
+				return
+			}
+			c.knownSeen[kf.ID] = true
+			v.Seed, v.Tier = c.seed, c.tier
+			c.Violations = append(c.Violations, *v)
+			return
+		}
+	}
 	for _, w := range c.Violations {
 		if w.Key() == v.Key() {
 			return
